@@ -215,6 +215,46 @@ def run(ctx):
                    "arithmetic on the fuel budget can overflow (panics with overflow checks, wraps without)",
                    f.where(bb))
     ctx.floor("C13.G5 functions in vm::fuel", n, 4)
+
+    # G6: the configured budget reaches the tracker unchanged.  Every value given to the environment's `fuel` field is
+    # a constant, a copy of the same field (Clone) or the caller's argument itself - no filter / map / arithmetic in
+    # between (`fuel.filter(|f| f > 0)` turns a budget of 0 into "no limit": below the threshold, yet it succeeds);
+    # the getter returns the field, and State::new maps exactly the getter's result through FuelTracker::new.
+    n6 = 0
+    for (pf, bb, adt, op, call) in flow.field_producers(prog, "fuel"):
+        if adt is None or not adt.endswith("environment::Environment"):
+            continue
+        n6 += 1
+        ok = False
+        why = ""
+        if op is None:
+            why = "assigned from %s" % (call.name if call else "a computed value")
+        elif "c" in op:
+            ok = True
+        else:
+            os_ = flow.origins(pf, op)
+            ok = bool(os_) and all(
+                (o.kind == "arg" and not o.proj) or (o.kind == "agg" and o.rv.get("variant") == "None") or
+                (o.kind == "call" and o.call.name.endswith("Clone>::clone") and any(
+                    x.kind == "arg" and x.proj and x.proj[-1] == "fuel" for x in flow.origins(pf, o.call.args[0])))
+                for o in os_)
+            why = "value comes from %s" % [repr(o) for o in os_]
+        ctx.ob("C13.G6.configured-budget-is-stored-unchanged", pf.path, ok,
+               "the environment's fuel budget is not stored as given (%s): budgets the transformation maps elsewhere get "
+               "another threshold than the one configured (a budget of 0 must fail, not run unmetered)" % why, pf.where(bb))
+    ctx.floor("C13.G6 writers of Environment.fuel", n6, 3)
+    getter = prog.fns.get("minijinja::environment::Environment::fuel")
+    if getter is not None:
+        ro = flow.origins(getter, 0)
+        ctx.ob("C13.G6.budget-getter-returns-the-field", getter.path,
+               bool(ro) and all(o.kind == "arg" and o.proj and o.proj[-1] == "fuel" for o in ro), "returns %r" % ro, getter.loc)
+    sn = prog.fn(STATE_NEW)
+    maps = [c for c in sn.calls() if c.name == "core::option::Option::map" and any(
+        o.kind == "call" and o.call.name == "minijinja::environment::Environment::fuel" for o in flow.origins(sn, c.args[0]))]
+    okm = bool(maps) and all(any(o.kind == "const" and NEW in str(o.const.get("fn", "")) for a in c.args[1:] for o in flow.origins(sn, a)) or
+                             any("c" in a and NEW in str(a["c"].get("fn", "")) for a in c.args[1:]) for c in maps)
+    ctx.ob("C13.G6.tracker-is-built-from-the-configured-budget", STATE_NEW, okm,
+           "State::new must build the tracker as `env.fuel().map(FuelTracker::new)`", sn.loc)
     ctx.count("dispatch arms", len(ev.term(disp)["arms"]))
     ctx.sample({"dispatch": ev.where(disp), "track_sites": [str(c.loc) for c in tcalls],
                 "State::new callers": sorted({f.path for f, _, _ in srefs})})
